@@ -10,7 +10,6 @@ use crate::common::*;
 use crate::gf2::*;
 use crate::hist::{all_decoder_names, gen_llrs};
 use dstsim::{Stream, keyed};
-use ldpc_toolbox::cli::ber::parse_puncturing_pattern;
 use ldpc_toolbox::decoder::factory::{DecoderFactory, DecoderImplementation};
 use ldpc_toolbox::encoder::Encoder;
 use ldpc_toolbox::gf2::GF2;
@@ -138,11 +137,9 @@ struct ModelEnc {
 }
 
 fn parse_pattern(p: &str) -> Result<Option<Vec<bool>>, ()> {
-    if p.is_empty() {
-        Ok(None)
-    } else {
-        parse_puncturing_pattern(p).map(Some).map_err(|_| ())
-    }
+    // an empty string means "no puncturing" in the C interface; otherwise the harness's own
+    // syntax check decides what is malformed (not the library's parser, which is under test)
+    if p.is_empty() { Ok(None) } else { own_parse_pattern(p).map(Some) }
 }
 
 fn text_for(source: &Source, content: &[u8]) -> Result<String, &'static str> {
@@ -229,7 +226,7 @@ fn gen_punct(g: &mut Stream, n: usize) -> String {
             v.iter().map(|&b| if b { "1" } else { "0" }).collect::<Vec<_>>().join(",")
         }
         9 => "1,1,1,1,1,1,1".to_string(), // may not divide n
-        _ => g.pick(&["1,2", "1,,0", "a", "1;0", " 1,0", "1,0,", ",", "true,false", "10", "0,0"]).to_string(),
+        _ => g.pick(&["1,2", "1,,0", "a", "1;0", " 1,0", "1,0,", ",", "true,false", "10", "0,0", "1,1,x", "1, 1, 0", "110", ",1", "1,0,1,", "01"]).to_string(),
     }
 }
 
@@ -814,7 +811,7 @@ fn history_fails(ops: &[FfiOp], kind: &str) -> Option<String> {
 pub fn main(opts: &Opts) -> ! {
     let t0 = std::time::Instant::now();
     let (n_hist, per_child, timeout) = match opts.tier {
-        Tier::Quick => ((4000.0 * opts.scale) as u64, 125u64, 120u64),
+        Tier::Quick => ((8000.0 * opts.scale) as u64, 125u64, 120u64),
         Tier::Thorough => ((200_000.0 * opts.scale) as u64, 1000u64, 900u64),
     };
     let batches: Vec<(u64, u64)> = (0..n_hist.div_ceil(per_child)).map(|b| (b * per_child, per_child.min(n_hist - b * per_child))).collect();
